@@ -1,11 +1,60 @@
+import Autog.Lemmas.PopulateSpec
+import Autog.Lemmas.Reverse
 import Autog.Lemmas.BreakMergeChains
-/-! # C02
-    The output graph is the input graph. First pass: break/merge of long edges is an exact inverse on the edge list. -/
+import Autog.Model.Pipeline
+/-! # C02 — the output graph is the input graph
+
+    Theorems about the model functions (keys `T:pre`, `T:phase1`, `T:break`, `T:phase5`, `T:post`, `T:output`):
+    * `C02_populate`: Populate builds a duplicate-free id table and one edge per input pair, in order, joining the
+      table entries named by the pair (so: every distinct id exactly once, every edge as often as given, with its direction);
+    * `C02_reverse_keeps_direction`: `Edge.Reverse` never changes the original direction of any edge (the pair recovered
+      from `IsReversed`), whatever is reversed, however often, in whatever order — this covers both breakers, the two-cycle
+      pre-pass and breakLongEdges' temporary reversals;
+    * `C02_unreverse_restores`: after `UnreverseEdges` every listed edge runs from its original source to its original target
+      and no flag is left;
+    * `C02_sizes`: the size options give every node its listed size, else the fixed size, else zero — by definition of `sizeOf`,
+      which is also what the predicate on the public result uses;
+    * break/merge: `reduce_chain`, `erase_all` (lemma library) — merging removes exactly the links that breaking added;
+    * `C02_collect_edges`: the result lists the edges of each component in edge-list order with the ids of their current ends.
+    PARTIAL: the composition of these facts along `layoutModel` into one end-to-end multiset statement is not assembled; the
+    end-to-end claim is decided per run by the multiset/direction/size predicates on the public result. -/
 
 namespace Autog
 
-theorem C02_reduce_restores_chain : type_of% @BreakMergeChains.reduce_chain := @BreakMergeChains.reduce_chain
-
+theorem C02_populate : type_of% @PopulateRename.populate_spec := @PopulateRename.populate_spec
+theorem C02_reverse_keeps_direction : type_of% @G.reverse_orig := @G.reverse_orig
+theorem C02_unreverse_restores : type_of% @unreverseEdges_direction := @unreverseEdges_direction
+theorem C02_merge_restores_chain : type_of% @BreakMergeChains.reduce_chain := @BreakMergeChains.reduce_chain
 theorem C02_erase_added_links : type_of% @BreakMergeChains.erase_all := @BreakMergeChains.erase_all
+
+/-- every node gets exactly the configured size -/
+theorem C02_sizes (cfg : Cfg) (g : G) (i : Nat) (hi : i < g.nodes.size) :
+    ((applySizes cfg g).nodes[i]'(by simp [applySizes]; exact hi)).w = (sizeOf cfg g.nodes[i].id).1 ∧
+    ((applySizes cfg g).nodes[i]'(by simp [applySizes]; exact hi)).h = (sizeOf cfg g.nodes[i].id).2 ∧
+    ((applySizes cfg g).nodes[i]'(by simp [applySizes]; exact hi)).id = g.nodes[i].id := by
+  simp [applySizes]
+
+/-- listed size, else fixed size, else zero -/
+theorem C02_sizeOf_cases (cfg : Cfg) (id : String) :
+    sizeOf cfg id = match cfg.sizes.bind (fun m => m.lookup id) with
+      | some s => s
+      | none => cfg.fixed.getD (0, 0) := rfl
+
+/-- the collected edges of a component: one per listed edge, in order, named by the ids of its ends -/
+theorem C02_collect_edges (cfg : Cfg) (shift : Rat) (ci : Nat) (g : G) :
+    (collectComp cfg shift ci g).edges.map (fun e => (e.src, e.dst)) =
+      g.elist.map fun e => ((g.node (g.edge e).src).id, (g.node (g.edge e).dst).id) := by
+  simp [collectComp, List.map_map, Function.comp]
+
+/-- helper nodes are left out unless requested -/
+theorem C02_collect_no_helpers (cfg : Cfg) (shift : Rat) (ci : Nat) (g : G) (hv : cfg.virt = false) :
+    ∀ n ∈ (collectComp cfg shift ci g).nodes, n.virt = false := by
+  intro n hn
+  simp only [collectComp, List.mem_map, List.mem_filter] at hn
+  obtain ⟨nd, ⟨_, hf⟩, rfl⟩ := hn
+  simpa [hv] using hf
+
+example : (PopulateRename.populate [("a", "b"), ("b", "b"), ("c", "a"), ("a", "b")]).edges = [(0, 1), (1, 1), (2, 0), (0, 1)] := by decide
+example : (PopulateRename.populate [("a", "b"), ("b", "b"), ("c", "a"), ("a", "b")]).ids = ["a", "b", "c"] := by decide
 
 end Autog
